@@ -16,3 +16,121 @@ package client
 //@   ensures-local status == 404 ==> result1 == nil && result0 != nil && len(result0.MultihashResults) == 0 && count("call:UnmarshalFindResponse") == 0
 //@   ensures-local status != 0 && status != 200 && status != 404 ==> result1 != nil && result0 == nil
 //@   ensures-local status == 200 ==> count("call:ReadAll") == 1
+
+// ---------------------------------------------------------------------------
+// Property C12, last clause: the reader-privacy lookup workflow (call protocol over the dhash functions,
+// whose own contracts are proved in package dhash).
+
+//@ nonnil log
+
+// DHStoreAPI is implemented by the HTTP client below and by callers' own stores. The HTTP one is ready for
+// use when it has a client and its two URLs (what NewDHashClient builds).
+//@ spec func dhapiOK(x val) bool = x != nil && (typeis(x, "*client.dhstoreHTTP") ==> as(x, "*client.dhstoreHTTP").c != nil && as(x, "*client.dhstoreHTTP").dhFindURL != nil && as(x, "*client.dhstoreHTTP").dhMetadataURL != nil)
+//@ iface DHStoreAPI.FindMultihash
+//@   pure
+//@   requires arg1 != nil && dhapiOK(recv)
+//@ iface DHStoreAPI.FindMetadata
+//@   pure
+//@   requires arg1 != nil && dhapiOK(recv)
+
+// fetchMetadata: the store is asked for the SHA-256 of the value key, and what it returns is decrypted
+// with that same value key; nothing stored means nothing returned, without error.
+//@ func (*DHashClient).fetchMetadata
+//@   property C12
+//@   requires c != nil && dhapiOK(c.dhstoreAPI) && ctx != nil
+//@   readonly
+//@   ghost h := zero("[]byte")
+//@   ghost enc := zero("[]byte")
+//@   at call SHA256#1: assert arg0 == vk && len(arg1) == 0
+//@   at call SHA256#1: after ghost h := result
+//@   at call FindMetadata#1: assert arg2 == h
+//@   at call FindMetadata#1: after ghost enc := result0
+//@   at call DecryptMetadata#1: assert arg0 == enc && arg1 == vk && len(enc) != 0
+//@   ensures-local count("call:DHStoreAPI.FindMetadata") == 1
+//@   ensures-local count("call:DecryptMetadata") <= 1
+
+// FindAsync: the store is queried with the second hash of the multihash; every encrypted value key is
+// decrypted with the multihash itself, split, and its metadata fetched with the decrypted value key; a
+// result carries the context ID and provider of that split and the metadata fetched for it (or, with a
+// provider cache, the expansion of exactly those three); value keys that fail any step, or have no
+// metadata, are skipped; the result channel is closed exactly once on every path and every send on it
+// can be abandoned through the context.
+//@ func (*DHashClient).FindAsync
+//@   property C12
+//@   requires c != nil && dhapiOK(c.dhstoreAPI) && ctx != nil && resChan != nil && !closed(resChan)
+//@   requires c.pcache != nil ==> pcOK(c.pcache) && !held(c.pcache.writeLock)
+//@   mayblock
+//@   ghost second := zero("multihash.Multihash")
+//@   ghost vk0 := zero("[]byte")
+//@   ghost pid0 := ""
+//@   ghost ctx0 := zero("[]byte")
+//@   ghost md0 := zero("[]byte")
+//@   at call SecondMultihash#1: assert arg0 == mh
+//@   at call SecondMultihash#1: after ghost second := result
+//@   at call FindMultihash#1: assert arg2 == second
+//@   at call DecryptValueKey#1: assert arg1 == mh
+//@   at call DecryptValueKey#1: after ghost vk0 := result0
+//@   at call SplitValueKey#1: assert arg0 == vk0
+//@   at call SplitValueKey#1: after ghost pid0 := str(result0)
+//@   at call SplitValueKey#1: after ghost ctx0 := result1
+//@   at call fetchMetadata#1: assert arg2 == vk0
+//@   at call fetchMetadata#1: after ghost md0 := result0
+//@   at call GetResults#1: assert arg0 == c.pcache && str(arg2) == pid0 && arg3 == ctx0 && arg4 == md0 && len(md0) != 0
+//@   ensures closed(resChan)
+//@   loop 1: invariant c != nil && dhapiOK(c.dhstoreAPI) && ctx != nil && !closed(resChan) && (c.pcache != nil ==> pcOK(c.pcache) && !held(c.pcache.writeLock))
+//@   loop 2: invariant c != nil && dhapiOK(c.dhstoreAPI) && ctx != nil && !closed(resChan) && (c.pcache != nil ==> pcOK(c.pcache) && !held(c.pcache.writeLock))
+//@   loop 3: invariant c != nil && dhapiOK(c.dhstoreAPI) && ctx != nil && !closed(resChan) && (c.pcache != nil ==> pcOK(c.pcache) && !held(c.pcache.writeLock))
+
+// Find: the asynchronous lookup runs in its own goroutine (which reports exactly one error value); the
+// results are collected in arrival order until the channel is closed; an error discards them; no results
+// is an empty response, otherwise one result set for exactly the multihash asked for.
+//@ func (*DHashClient).Find
+//@   property C12
+//@   requires c != nil && dhapiOK(c.dhstoreAPI) && ctx != nil && (c.pcache != nil ==> pcOK(c.pcache) && !held(c.pcache.writeLock))
+//@   mayblock
+//@   ensures result1 != nil ==> result0 == nil
+//@   ensures result1 == nil ==> result0 != nil && (len(result0.MultihashResults) == 0 || (len(result0.MultihashResults) == 1 && result0.MultihashResults[0].Multihash == mh && len(result0.MultihashResults[0].ProviderResults) >= 1))
+
+//@ func (*DHashClient).Find$1
+//@   property C12
+//@   requires c != nil && dhapiOK(c.dhstoreAPI) && ctx != nil && (c.pcache != nil ==> pcOK(c.pcache) && !held(c.pcache.writeLock))
+//@   requires resChan != nil && !closed(resChan) && errChan != nil && !closed(errChan)
+//@   mayblock
+//@   at call FindAsync#1: assert arg1 == ctx && arg2 == mh && arg3 == resChan
+//@   ensures-local count("call:FindAsync") == 1 && count("send:errChan") == 1 && before("call:FindAsync", "send:errChan")
+
+// The HTTP implementation of DHStoreAPI: the key goes into the URL path in base58; 404 is "no data, no
+// error"; any other non-200 status is an error built from status and body; 200 decodes the body.
+//@ func (*dhstoreHTTP).FindMultihash
+//@   property C12
+//@   requires d != nil && d.c != nil && d.dhFindURL != nil && ctx != nil
+//@   ghost status := 0
+//@   ghost key := 0
+//@   at call B58String#1: assert arg0 == dhmh
+//@   at call B58String#1: after ghost key := str(result)
+//@   at call JoinPath#1: assert arg0 == d.dhFindURL && len(arg1) == 1 && str(arg1[0]) == key
+//@   ghost readOK := false
+//@   at call Do#1: after ghost status := ite(result1 == nil, result0.StatusCode, 0)
+//@   at call ReadAll#1: after ghost readOK := result1 == nil
+//@   at call Unmarshal#1: assert status == 200 && readOK
+//@   at call FromResponse#1: assert arg0 == status && status != 200 && status != 404
+//@   ensures-local status == 404 && readOK ==> result1 == nil && len(result0) == 0
+//@   ensures-local status != 0 && status != 200 && status != 404 ==> result1 != nil
+//@   ensures-local count("call:Do") <= 1
+
+//@ func (*dhstoreHTTP).FindMetadata
+//@   property C12
+//@   requires d != nil && d.c != nil && d.dhMetadataURL != nil && ctx != nil
+//@   ghost status := 0
+//@   ghost key := 0
+//@   at call Encode#1: assert arg0 == hvk
+//@   at call Encode#1: after ghost key := str(result)
+//@   at call JoinPath#1: assert arg0 == d.dhMetadataURL && len(arg1) == 1 && str(arg1[0]) == key
+//@   ghost readOK := false
+//@   at call Do#1: after ghost status := ite(result1 == nil, result0.StatusCode, 0)
+//@   at call ReadAll#1: after ghost readOK := result1 == nil
+//@   at call Unmarshal#1: assert status == 200 && readOK
+//@   at call FromResponse#1: assert arg0 == status && status != 200 && status != 404
+//@   ensures-local status == 404 && readOK ==> result1 == nil && len(result0) == 0
+//@   ensures-local status != 0 && status != 200 && status != 404 ==> result1 != nil
+//@   ensures-local count("call:Do") <= 1
